@@ -184,12 +184,17 @@ class InferenceStateSubprocess(_InferenceStateProcess):
         # depend on the semantics of `CompiledSubprocess.delete_inference_state`
         # for correctness.
         self._inference_state_id = id(self)
+        if _verif.ON:
+            _verif.trace('NewISS', isid=self._inference_state_id, sub=id(compiled_subprocess))
 
     def __getattr__(self, name):
         func = _get_function(name)
 
         def wrapper(*args, **kwargs):
             self._used = True
+            if _verif.ON:
+                _verif.trace('Call', isid=self._inference_state_id, fn=name,
+                             sub=id(self._compiled_subprocess))
 
             result = self._compiled_subprocess.run(
                 self._inference_state_id,
